@@ -119,8 +119,20 @@ func main() {
 					models[s] = m
 				}
 				r.Count("failing-ops", 1)
+				wasMine := op.Kind == "fault" && strings.Contains(op.Arg, ",mine")
 				op.Kind = "partial:" + op.Kind
-				return audit(r, s, op, m)
+				ps := audit(r, s, op, m)
+				if len(ps) == 0 && wasMine && rng.Intn(2) == 0 {
+					// a write error at the node's own block, then right away a walk that undoes a block
+					// (the height computed for the block that was never applied must not be published
+					// by the next step that does not raise the height itself)
+					if tip := s.Tip(); tip > 0 {
+						op2 := s.Walk(s.T.Blocks[tip].Parent, false)
+						r.Count("fault-at-own-block-then-undo", 1)
+						return audit(r, s, op2, m)
+					}
+				}
+				return ps
 			})
 		r.Seed -= int64(wi) * 1000
 		for k := range models {
@@ -133,6 +145,7 @@ func main() {
 	r.Floor("irr.compared", 2000)
 	r.Floor("failing-ops", 100)
 	r.Floor("twowalks", 60)
+	r.Floor("fault-at-own-block-then-undo", 5)
 	r.Floor("irr.raised", 200)
 	r.Floor("walk.refused.justified", 30)
 	r.Floor("walk.prune.lowered", 5)
